@@ -9,45 +9,53 @@ LABEL = {
     "S-C01-a": "`Intersection.lines`: `denom != 0` → `abs(denom) > 1e-6` (millimetre exact polygons lose crossings)",
     "S-C01-b": "`JordanCurve.box()` cached, not reset by `move`",
     "S-C01-c": "`DivideConnecteds` groups by area only (island in a hole mis-nested)",
+    "S-C01-d": "`_contains_jordan` samples only segment end- and mid-points (operators take the containment short-cut)",
     "S-C02-a": "`PlanarCurve.__contains__` compares squared distance with the unsquared tolerance",
     "S-C02-b": "`JordanCurve.box()` cached, not reset by `move`",
     "S-C02-c": "`ConnectedShape._contains_point` box quick-reject from the first subshape",
     "S-C03-a": "`_contains_jordan` early exit when the boundaries do not meet",
     "S-C03-b": "`DefinedShape.box()` memoised; transformations of the jordans do not reset it",
     "S-C03-c": "`ConnectedShape._contains_shape` skips holes by bounding box",
+    "S-C03-d": "`__contains_simple`: `areaA <= areaB and jordana in self` for two unbounded shapes",
     "S-C04-a": "`IntegrateJordan.vertical` memoised per exponent, not reset by `move`",
     "S-C04-b": "`IntegratePlanar.vertical` returns 0 for segments with an axis-parallel chord",
     "S-C04-c": "`IntegrateShape.polynomial` recurses into subshapes with |·|",
     "S-C05-a": "`JordanCurve.box()` cached, not reset by `move`",
     "S-C05-b": "`FollowPath` drops closed paths of fewer than 3 pieces (two-arc lenses)",
     "S-C05-c": "`PlanarCurve.invert` only swaps first and last control point (wrong for degree ≥ 3)",
+    "S-C05-d": "`midpoints_one_shape` returns one start segment per curve (components/holes dropped)",
     "S-C06-a": "`DivideConnecteds` seed selection by signed area",
     "S-C06-b": "`JordanCurve.split` de-duplicates parameters by exact equality only",
     "S-C06-c": "`DisjointShape.__invert__` wraps all inverted curves in one Connected",
+    "S-C06-d": "`follow_path` drops `filter_rotations` (the same result curve several times)",
     "S-C07-a": "`JordanCurve.__eq__` rejects on control-point boxes",
     "S-C07-b": "`DisjointShape.__eq__` one-directional matching",
     "S-C07-c": "`JordanCurve.clean()` single pass (three pieces of one segment)",
     "S-C08-a": "`JordanCurve.__deepcopy__` shares interior control points with the source",
     "S-C08-b": "`indexs_to_jordan` copies once at the end (pieces shared with operands)",
     "S-C08-c": "`__or__` fast path for apart boxes returns the operands themselves",
+    "S-C08-d": "`SimpleShape.__init__` keeps the caller's `JordanCurve`",
     "S-C09-a": "`JordanCurve.vertices` de-duplicates by value (equal points moved once)",
     "S-C09-b": "`JordanCurve.box()` lazily cached, stale after `rotate`",
     "S-C09-c": "`SimpleShape` keeps the caller's `JordanCurve` (no copy)",
     "S-C10-a": "`scale` multiplies the cached signed length by the signed factor",
     "S-C10-b": "`DefinedShape.box()` memoised",
     "S-C10-c": "`__deepcopy__` of Connected/Disjoint is shallow (same SimpleShapes)",
+    "S-C10-d": "`_contains_jordan` samples only pieces with a reported crossing (wrong once both operands are split)",
     "S-C11-a": "`__float__` stores the unsigned length before the area call (interrupt leaves a cw curve positive)",
     "S-C11-b": "`Point2D.scale` augmented assignment (x scaled before y validated)",
     "S-C11-c": "`__contains_simple` inverts operands in place and back",
     "S-C12-a": "`JordanCurve.box()` cached, not reset by `move`",
     "S-C12-b": "`Point2D.__eq__` relative tolerance",
     "S-C12-c": "adaptive winding stops on the end-point box instead of the control-point box",
+    "S-C12-d": "default node count `(a+b)*deg+1`: cubic areas under-integrated, rotation dependent",
     "S-C13-a": "`Intersection.lines` caps exact parameters at 1e9",
     "S-C13-b": "`Intersection.lines` float parallel test",
     "S-C13-c": "Gauss–Legendre floats above 8 nodes in rational integrals",
     "S-C14-a": "`Intersection.lines` `abs(denom) < 1e-6` ⇒ parallel",
     "S-C14-b": "memoised derivative curves, stale after in-place transformation",
     "S-C14-c": "box short-cut in `PlanarCurve.__and__` (zero-width box intersection)",
+    "S-C14-d": "`intersection` culls segments by the box of the other curve's *end points*",
     "S-C15-a": "`BezierCurve.clean` tolerance scaled by control-point norm",
     "S-C15-b": "subdivision matrices memoised by value: float matrices reused for Fraction parameters",
     "S-C15-c": "`JordanCurve.split` compares a parameter only with the last one kept (unsorted repeats survive)",
@@ -57,12 +65,14 @@ LABEL = {
     "S-C17-a": "`vertices` de-duplicated by value",
     "S-C17-b": "`from_full_curve` no longer cleans pieces",
     "S-C17-c": "orientation from the shoelace of control vertices",
+    "S-C17-d": "`from_segments` no longer checks that consecutive segments meet",
     "S-C18-a": "`Math.comb` floor-divides the factor: wrong from n = 5",
     "S-C18-b": "`BezierCurve.eval` memoised coefficients stale after in-place moves",
     "S-C18-c": "`BezierCurve.split` de Casteljau rewrite: middle pieces cut at the un-normalised parameter",
     "S-C19-a": "`DisjointShape.__eq__` zip comparison",
     "S-C19-b": "`DisjointShape.__new__` recognises Empty by area < tolerance",
     "S-C19-c": "`ConnectedShape._contains_point` box quick-reject",
+    "S-C19-d": "`DivideConnecteds` single pass: wrong grouping at four nesting levels",
     "S-C20-a": "fill-vs-hole from the sign of the whole shape's area",
     "S-C20-b": "outline snapping by 6 significant digits",
     "S-C20-c": "path code looked up once per curve from its first segment (mixed-degree curves)",
